@@ -20,6 +20,14 @@ func (e *Exec) timeStruct(t types.Type, wall, ext *Term) *StructV {
 // now returns a fresh monotonic instant >= every earlier one (in nanoseconds, int64).
 func (e *Exec) now() *Term {
 	c := e.C
+	if step, ok := e.ext["clock.step"].(uint64); ok {
+		// concrete clock requested by the harness (verifnd.ConcreteClock): instants advance by a fixed step
+		cur, _ := e.ext["clock.cur"].(uint64)
+		cur += step
+		e.ext["clock.cur"] = cur
+		e.clock = c.BVConst(64, cur)
+		return e.clock
+	}
 	e.ndSeq++
 	t := c.Var(fmt.Sprintf("clk!%d", e.ndSeq), BV(64))
 	e.ND = append(e.ND, NDEntry{Kind: "clock", Term: t})
@@ -194,7 +202,31 @@ func init() {
 		var ts []*Term
 		e.flatten(iv.Val, &ts, 0)
 		code := e.C.App("marshal!"+shortType(iv.Typ), IntSort, ts...)
+		// remember the message so that proto.Unmarshal of exactly these bytes can restore it
+		reg, _ := e.ext["marshalled"].(map[*Term]*protoBody)
+		if reg == nil {
+			reg = map[*Term]*protoBody{}
+			e.ext["marshalled"] = reg
+		}
+		if p, ok := iv.Val.(*Pointer); ok && !p.IsNil() {
+			reg[code] = &protoBody{typ: iv.Typ, snap: e.snapshot(e.peek(p), 0)}
+		}
 		return TupleV{&BytesV{Code: code}, &IfaceV{}}, false
+	})
+	reg("google.golang.org/protobuf/proto.Unmarshal", func(e *Exec, fv *FuncV, args []Value, cc *ssa.CallCommon) (Value, bool) {
+		b, ok := args[0].(*BytesV)
+		regm, _ := e.ext["marshalled"].(map[*Term]*protoBody)
+		if !ok || regm == nil || regm[b.Code] == nil {
+			e.unsupported("proto.Unmarshal of bytes that were not produced by proto.Marshal on this path")
+		}
+		body := regm[b.Code]
+		div := args[1].(*IfaceV)
+		if !types.Identical(div.Typ, body.typ) {
+			e.unsupported("proto.Unmarshal into a different message type")
+		}
+		dp := div.Val.(*Pointer)
+		e.store(dp, e.normalise(e.snapshot(body.snap, 0), div.Typ.Underlying().(*types.Pointer).Elem()))
+		return &IfaceV{}, false
 	})
 
 	// --- go-ethereum crypto (uninterpreted) ---
@@ -221,9 +253,11 @@ func init() {
 			keyID = e.C.IntConst(int64(p.Obj.ID))
 		}
 		sig := e.C.App("sign!", IntSort, h, keyID)
-		// signing may fail (invalid key): arbitrary outcome
-		okv := e.C.App("sign_ok!", BoolSort, h, keyID)
-		if e.Branch(okv) {
+		// signing a 32-byte digest with a valid key does not fail; a nil key or a digest of another length does
+		p, _ := args[1].(*Pointer)
+		okLen := e.C.Eq(e.bytesLen(h), e.C.BVConst(64, 32))
+		if p != nil && !p.IsNil() && e.Branch(okLen) {
+			e.Assume(e.C.mk(&Term{Op: ">", Sort: BoolSort, Args: []*Term{sig, e.C.IntConst(0)}}))
 			return TupleV{&BytesV{Code: sig}, &IfaceV{}}, false
 		}
 		return TupleV{&SliceV{}, &IfaceV{Typ: errType(e), Val: &OpaqueV{Tag: "err:sign failed"}}}, false
